@@ -17,4 +17,13 @@ CHECKS = {
         "note": "Trusted: Python Decimal at prec 90 and Fraction. Reverse direction and helpers are sampled, not exhaustive, over "
         "sqrt prices strictly between boundaries (4 probes per tick).",
     },
+    "C10": {
+        "technique": "reference-model monitor: exact Fraction scaled-balance ledger fed with the same accepted operations, compared after every operation and bar change",
+        "text": "Random interleavings of supply/withdraw/borrow/repay (cash, collateral of the same or another token, partial, all, "
+        "split in parts) over generated index paths (flat/slow/jumpy, liquidity != borrow index, per token) are run on the real "
+        "AaveV3Market; after every operation and every bar change every position amount is compared with the exact ledger (5e-19), "
+        "wallet deltas and action records with the stated amounts, and fully repaid/withdrawn positions must disappear.",
+        "note": "Sampled sequences (not exhaustive). Sequences stop at the first rejection; liquidation is not triggered here. "
+        "Wallet equality is up to the Decimal context precision (35 digits).",
+    },
 }
